@@ -60,3 +60,7 @@ def run(ctx):
     if uniq:
         replay(ctx, uniq, "sim")
         ctx.sample(uniq[0])
+    # the retried hello arriving in pieces, cut short, or interrupted by an expired read deadline that the caller extends: the
+    # record-level runs of EchPipe.tla (a third of them carry a HelloRetryRequest and a second hello)
+    import c07
+    c07.pipe_traces(ctx, 400 if ctx.quick else 6000, label="c06pp")
